@@ -76,7 +76,7 @@ def clause_registry(unit):
         for c in fn.requires + fn.ensures:
             reg[c.id] = (tuple(c.props), fn, "clause")
         for n, lp in fn.loops.items():
-            for c in lp.invariants:
+            for c in list(lp.invariants) + list(getattr(lp, "except_break", [])) + list(getattr(lp, "ensures", [])):
                 reg[c.id] = (tuple(c.props), fn, "clause")
             if lp.decreases:
                 reg["%s/loop%d.decreases" % (fn.qual, n)] = (tuple(getattr(lp, "decreases_props", None) or fn.termination_props), fn, "clause")
@@ -158,7 +158,7 @@ def run_verus_unit(unit, workdir, tier, seed, want_canaries=True):
         raise Undecided("unit %s: non-verification diagnostics: %s" % (unit.name, [d.get("message") for d in compile_errs][:5]))
     # unstable proofs: a seed-variation run that disagrees with the base run -> undecided
     def fail_keys(r):
-        return sorted(set(_attribute(d, g, reg, fn_at, gl, unit)[0] for d in r.diags))
+        return sorted(set(str(_attribute(d, g, reg, fn_at, gl, unit)[0]) for d in r.diags))
     base_keys = fail_keys(r0)
     for r in runs[1:]:
         if r.json is None or fail_keys(r) != base_keys:
@@ -215,7 +215,7 @@ def _attribute(d, g, reg, fn_at, gl, unit):
         elif org.get("kind") == "hint" and hint is None:
             hint = org["ref"]
         # scan the whole span for tags too (multi-line clause)
-        if org.get("kind") == "repo" and (repo_site is None or sp.get("is_primary")):
+        if org.get("kind") in ("repo", "rule", "sig", "drop") and org.get("line") and (repo_site is None or sp.get("is_primary")):
             repo_site = {"file": org["file"], "line": org["line"], "text": gl[ln0].strip()[:200], "label": sp.get("label")}
     # ensures failure: spans = clause + exit point
     msg = d.get("message", "")
